@@ -68,6 +68,7 @@ package gcsemu
 // validated and the single Store.Add happens; an error never comes with an object.
 //@ func (g *GcsEmu) finishCompose
 //@   property C15 C20 C07
+//@   requires gcsLockedKey == bucket + "/" + dst.filename
 //@   modifies fields(meta)
 //@   ensures len(srcs) > 32 ==> result0 == nil && is400(result1)
 //@   ensures len(srcs) <= 32 && meta == nil ==> result0 == nil && is400(result1)
@@ -76,6 +77,8 @@ package gcsemu
 // the converse of the first clause: "too many sources" is only ever answered for more than 32 sources
 //@   callsite fmtErrorfCode requires arg1 == "too many sources" ==> len(srcs) > 32
 //@   loop 1 invariant len(metas) == len(srcs)
+//@   loop 1 invariant dst.filename == old(dst.filename)
+//@   loop 2 invariant dst.filename == old(dst.filename)
 //@   loop 1 invariant forall k :: 0 <= k <= idx1 ==> metas[k] != nil
 //@   loop 1 invariant forall k :: 0 <= k <= idx1 ==> condsHold(metas[k], srcs[k].conds)
 //@   loop 1 invariant frameOld(fields(meta))
